@@ -89,20 +89,35 @@ class Sim:
         self.loop_transports = []         # (owner overlay or None, transport) for every loop.create_datagram_endpoint
         self.socket_baseline = None
         self.app_jobs = []                # application-owned API coroutines kept in flight across the unload
+        self.children = {}                # id(creator overlay) -> overlays it created
+        self.children_done_before = []    # children that had been unloaded already when the parent's unload was requested
         self.iter = 0                     # event-loop iterations of this run so far
         self.trigger_iter = None          # request the unload when this iteration starts
         self.send_iters = []              # (iteration, index of the destination node) of every packet sent
 
     # ---- bookkeeping -------------------------------------------------------------------------------
-    def owned_managers(self):
-        """TaskManagers that belong to the unloaded overlay: itself, its request cache, its exit sockets."""
+    def owned_overlays(self):
+        """The unloaded overlay and the overlays it created itself and still owned when the unload was requested (e.g. the
+        PexCommunity a HiddenTunnelCommunity runs for an introduction point): they are its resources."""
         ov = self.target.overlay
-        owned = [ov]
-        rc = getattr(ov, "request_cache", None)
-        if rc is not None:
-            owned.append(rc)
+        return [ov] + [c for c in self.children.get(id(ov), []) if c not in self.children_done_before]
+
+    def is_owned_manager(self, m):
+        for o in self.owned_overlays():
+            if m is o or m is getattr(o, "request_cache", None) or getattr(m, "overlay", None) is o:
+                return True
+        return False
+
+    def owned_managers(self):
+        """TaskManagers that belong to the unloaded overlay: itself, its request cache, its exit sockets, its child overlays."""
+        owned = []
+        for o in self.owned_overlays():
+            owned.append(o)
+            rc = getattr(o, "request_cache", None)
+            if rc is not None:
+                owned.append(rc)
         for m, _, _, _ in self.task_records:
-            if getattr(m, "overlay", None) is ov and m not in owned:
+            if self.is_owned_manager(m) and not any(m is x for x in owned):
                 owned.append(m)
         return owned
 
@@ -127,6 +142,13 @@ class Sim:
                 self.violate("endpoint.send:after-unload",
                              f"{type(self.target.overlay).__name__} sent msg id {packet[22] if len(packet) > 22 else -1} "
                              f"{self.loop.time() - self.unload_done:.1f} virtual s after unload() returned")
+            elif self.after_unload():
+                for child in self.owned_overlays()[1:]:
+                    if packet[:22] == child.get_prefix():
+                        self.violate("owned-overlay.send:after-unload",
+                                     f"the {type(child).__name__} that the unloaded {type(self.target.overlay).__name__} had "
+                                     f"created sent msg id {packet[22] if len(packet) > 22 else -1} "
+                                     f"{self.loop.time() - self.unload_done:.1f} virtual s after unload() returned")
         if self.trigger_step is not None and self.step - 1 == self.trigger_step and self.unload_started is None:
             self.request_unload()
 
@@ -156,6 +178,21 @@ class Sim:
                          f"the service stepped {type(strategy).__name__} of the unloaded {type(self.target.overlay).__name__} "
                          f"{self.loop.time() - self.unload_done:.1f} virtual s after unload_overlay() returned")
 
+    def child_created(self, parent, child):
+        """Count the handler entries of an overlay that one of the run's overlays creates (decode_map is filled later, in the
+        child's constructor: wrap lazily through on_packet)."""
+        sim = self
+        orig = child.on_packet
+
+        def on_packet(packet, *a, **k):
+            if sim.target is not None and sim.after_unload() and any(child is c for c in sim.owned_overlays()[1:]) \
+                    and packet[1][:22] == child.get_prefix():
+                sim.violate("owned-overlay.on_packet:after-unload",
+                            f"the {type(child).__name__} that the unloaded {type(sim.target.overlay).__name__} had created "
+                            f"still receives datagrams {sim.loop.time() - sim.unload_done:.1f} virtual s after unload() returned")
+            return orig(packet, *a, **k)
+        child.on_packet = on_packet
+
     def node_of_overlay(self, ov):
         for nd in self.nodes:
             if nd.overlay is ov:
@@ -172,6 +209,8 @@ class Sim:
             return
         self.unload_started = self.loop.time()
         ov = self.target.overlay
+        self.children_done_before = [c for c in self.children.get(id(ov), []) if getattr(c, "_shutdown", False)]
+        self.stats["owned_children"] = len(self.owned_overlays()) - 1
         builtin = ("_check_tasks", "discover_lan_addresses", "do_circuits", "do_ping", "do_peer_discovery",
                    "token_maintenance", "node_maintenance", "value_maintenance")
         self.stats["pre_tasks"] = sum(1 for m, name, f, _ in self.task_records
@@ -232,7 +271,7 @@ class Sim:
         if self.target is None or not self.after_unload():
             return
         ov = self.target.overlay
-        if manager is ov or manager is getattr(ov, "request_cache", None) or getattr(manager, "overlay", None) is ov:
+        if self.is_owned_manager(manager):
             self.violate("taskmanager:task-ran-after-unload",
                          f"task {name!r} of {type(manager).__name__} ({type(ov).__name__}) ran "
                          f"{self.loop.time() - self.unload_done:.1f} virtual s after unload() returned")
@@ -303,6 +342,27 @@ def install_patches():
 
     es_mod.TunnelProtocol.open = tp_open
 
+    orig_ov_init = ov_mod.Overlay.__init__
+
+    def ov_init(self, *a, **k):
+        orig_ov_init(self, *a, **k)
+        sim = Sim.current
+        if sim is None:
+            return
+        f = sys._getframe(1)  # noqa: SLF001
+        depth = 0
+        while f is not None and depth < 30:
+            obj = f.f_locals.get("self")
+            if obj is not None and obj is not self and any(nd.overlay is obj for nd in sim.nodes):
+                sim.children.setdefault(id(obj), []).append(self)      # created by one of the run's overlays
+                sim.child_created(obj, self)
+                return
+            f = f.f_back
+            depth += 1
+
+    ov_mod.Overlay.__init__ = ov_init
+    _PATCHED["ov_init"] = orig_ov_init
+
     orig_enable = es_mod.TunnelExitSocket.enable
 
     def enable(self):
@@ -351,7 +411,7 @@ def overlay_classes():
     return _PATCHED_CACHE["classes"]
 
 
-def build_node(sim, cls, stack, flags=None, companion=False):
+def build_node(sim, cls, stack, flags=None, companion=False, controller=False):
     from ipv8.keyvault.crypto import default_eccrypto
     from ipv8.messaging.anonymization.endpoint import TunnelEndpoint
     from ipv8.peer import Peer
@@ -385,11 +445,25 @@ def build_node(sim, cls, stack, flags=None, companion=False):
         settings.info_hash = b"\x11" * 20
     if flags is not None and hasattr(settings, "peer_flags"):
         settings.peer_flags = set(flags)
+    svc = None
+    if controller:
+        # registered with a real (unstarted) IPv8 controller, as hidden services need one to run their PEX overlays
+        from ipv8_service import IPv8
+        svc = IPv8({"logger": {"level": "CRITICAL"}, "overlays": [], "keys": [], "walker_interval": 0.5},
+                   endpoint_override=endpoint)
+        logging.disable(logging.CRITICAL)
+        if hasattr(settings, "ipv8"):
+            settings.ipv8 = svc
     overlay = cls(settings)
+    if svc is not None:
+        svc.overlays.append(overlay)
     overlay.my_estimated_wan = rec.wan_address
     overlay.my_estimated_lan = rec.lan_address
     node = Node(sim, overlay, endpoint, rec)
     node.companion = None
+    if svc is not None:
+        node.service = svc
+        node.all_overlays = [overlay]
     node.extra_bases = extra
     for e in extra:
         e.node = node
@@ -565,7 +639,10 @@ async def nap(t):
 async def introduce(nodes):
     for x in nodes:
         act(x, "bootstrap")
+        act(x, "bootstrap")        # two walkers in one tick: a second bootstrap round starts before the first has finished
     await nap(0.1)
+    for x in nodes:
+        act(x, "bootstrap")
     for x in nodes:
         for y in nodes:
             if x is not y:
@@ -791,7 +868,25 @@ async def sc_inflight(sim, nodes, rng):
     await nap(14.0)
 
 
-SCENARIOS = {"anon": sc_anon, "service": sc_service, "inflight": sc_inflight, "attestation": sc_attestation, "intro": sc_intro, "discovery": sc_discovery, "dht": sc_dht, "tunnel": sc_tunnel}
+async def sc_hidden_intro(sim, nodes, rng):
+    """Hidden services: originators make the exit node an introduction point, which starts a PexCommunity of its own
+    (same key, same endpoint) for the swarm — an overlay that the introduction point owns."""
+    from ipv8.keyvault.crypto import default_eccrypto
+    from ipv8.messaging.anonymization.payload import EstablishIntroPayload
+    from ipv8.messaging.anonymization.tunnel import PEER_FLAG_EXIT_BT
+    await introduce(nodes)
+    info_hash = bytes(rng.getrandbits(8) for _ in range(20))
+    for i, a in enumerate(nodes[:-1]):
+        circ = act(a, "create_circuit", 1, exit_flags=[PEER_FLAG_EXIT_BT])
+        await nap(1.2)
+        if circ is not None and circ.hop is not None:
+            seeder_pk = default_eccrypto.generate_key("curve25519").pub().key_to_bin()
+            act(a, "send_cell", circ.hop.address, EstablishIntroPayload(circ.circuit_id, 40 + i, info_hash, seeder_pk))
+        await nap(0.8)
+    await nap(4.0)
+
+
+SCENARIOS = {"hidden-intro": sc_hidden_intro, "anon": sc_anon, "service": sc_service, "inflight": sc_inflight, "attestation": sc_attestation, "intro": sc_intro, "discovery": sc_discovery, "dht": sc_dht, "tunnel": sc_tunnel}
 
 
 def scenario_families(cls_name):
@@ -808,6 +903,8 @@ def scenario_families(cls_name):
         fam.append("inflight")
     if cls_name in ("TunnelCommunity", "HiddenTunnelCommunity"):
         fam.append("anon")
+    if cls_name == "HiddenTunnelCommunity":
+        fam.append("hidden-intro")
     return fam          # (+ family "service" for the classes of the default configuration, see service_specs)
 
 
@@ -946,8 +1043,9 @@ async def _scenario_main(sim, cls, spec, rng, dry):
         if family == "service":
             nodes.append(build_service(sim, spec["cls"], spec["stack"], rng))
             continue
-        flags = tunnel_flags(i, n, sim.hops) if family == "tunnel" or hasattr(cls.settings_class, "peer_flags") else None
-        nodes.append(build_node(sim, cls, spec["stack"], flags, companion=(family == "anon")))
+        flags = tunnel_flags(i, n, sim.hops) if family in ("tunnel", "hidden-intro") or hasattr(cls.settings_class, "peer_flags") else None
+        nodes.append(build_node(sim, cls, spec["stack"], flags, companion=(family == "anon"),
+                                controller=(family == "hidden-intro")))
     target = nodes[spec["target"]]
     wire_bootstrappers(nodes)
     sim.socket_baseline = count_socket_fds()
@@ -1070,22 +1168,31 @@ def late_datagrams(sim, target, nodes, rng, replay_only=False):
         guarded(deliver, (src, target.prefix + bytes([mid]) + body))
         if mid in body_by_id:
             guarded(deliver, (src, target.prefix + bytes([mid]) + bytes(rng.getrandbits(8) for _ in range(30))))
+    for child in sim.owned_overlays()[1:]:
+        cp = guarded(child.get_prefix)
+        if cp:
+            for mid in (245, 246, 249, 250, 1, 2, 0):
+                guarded(deliver, (others[0], cp + bytes([mid]) + bytes(rng.getrandbits(8) for _ in range(40))))
     guarded(deliver, (others[0], target.prefix))
     guarded(deliver, (others[0], b""))
     guarded(deliver, (others[0], bytes(rng.getrandbits(8) for _ in range(60))))
 
 
 def poke_open_transports(sim, ov):
-    """An outside datagram to every exit transport of the unloaded overlay that is still open."""
-    for owner, tr in sim.transports:
-        if getattr(owner, "overlay", None) is ov and not tr.is_closing():
+    """An outside datagram to every socket of the unloaded overlay that is still open (exit transports, and whatever the
+    loop opened for it — e.g. a broadcast-bootstrap socket nobody refers to any more)."""
+    todo = [(owner, tr) for owner, tr in sim.transports if getattr(owner, "overlay", None) is ov]
+    todo += [(None, tr) for oo, tr in sim.loop_transports if oo is ov and all(tr is not t for _, t in todo)]
+    for owner, tr in todo:
+        if not tr.is_closing():
             try:
                 sock = tr.get_extra_info("socket")
                 fam = sock.family
                 port = sock.getsockname()[1]
                 s = socket.socket(fam, socket.SOCK_DGRAM)
-                s.sendto(b"d1:ad2:id20:abcdefghij0123456789e1:q4:ping1:t2:aa1:y1:qe",
-                         ("127.0.0.1" if fam == socket.AF_INET else "::1", port))
+                dst = ("127.0.0.1" if fam == socket.AF_INET else "::1", port)
+                s.sendto(b"d1:ad2:id20:abcdefghij0123456789e1:q4:ping1:t2:aa1:y1:qe", dst)
+                s.sendto(guarded(ov.get_prefix) + bytes([246]) + b"\x00" * 60, dst)     # a prefixed datagram
                 s.close()
             except OSError:
                 pass
@@ -2097,6 +2204,8 @@ def run_one_scenario(ctx: Ctx, spec):
         ctx.count(f"inflight-silence:{spec.get('silence')}")
         ctx.extra["api_inflight"] = INFLIGHT_APIS
     ctx.count("unload-with-protocol-tasks-pending" if st["pre_tasks"] else "unload-with-only-builtin-periodic-tasks")
+    if st.get("owned_children"):
+        ctx.count("unload-with-owned-child-overlays")
     ctx.count("target-traffic:%s" % ("none" if st["pre_sent"] + st["pre_recv"] == 0 else
                                      "1-9" if st["pre_sent"] + st["pre_recv"] < 10 else "10+"))
     nontrivial = (st["pre_sent"] + st["pre_recv"] > 0) or st["pre_tasks"] > 0      # RULE: traffic or a protocol task pending
@@ -2356,14 +2465,14 @@ def run(ctx: Ctx):
     rng = ctx.rng
     use_model = ctx.model_ok
     run_unload_static(ctx, use_model)
-    run_registry(ctx, rng, ctx.scale(600, 4000), use_model)
-    run_tm(ctx, rng, ctx.scale(600, 4000), use_model)
+    run_registry(ctx, rng, ctx.scale(400, 4000), use_model)
+    run_tm(ctx, rng, ctx.scale(400, 4000), use_model)
     run_service_ops(ctx, rng, ctx.scale(300, 3000), use_model)
     run_cache(ctx, rng, ctx.scale(300, 3000), use_model)
     if ctx.thorough():
         run_scenarios(ctx, rng, None, 6)          # every packet index, every role
     else:
-        run_scenarios(ctx, rng, 20, 5)
+        run_scenarios(ctx, rng, 14, 4)
     for cls in sorted(overlay_classes()):
         if not any(k == f"scenario:{cls}" for k in ctx.counts):
             raise InfraError(f"no scenario ran for shipped overlay class {cls}")
